@@ -17,6 +17,8 @@ The tie is SEMANTIC: the classes are not pattern-matched, they are EXECUTED on s
   into a decision tree (identical sub-trees collapse);
 * commutative operands are sorted, nothing is re-associated (the Lean text is run at Float against
   the real code, exact equality on the linear path);
+* `BaseInterval.__call__` / `BaseInterval.inverse` are traced the same way through a subclass whose `get_limits`
+  returns the symbols `(vmin, vmax)` (`baseIntervalCall`, `baseIntervalInverse`);
 * per class are traced: construction (`valid`: does `cls(params)` raise ValueError), `__call__`
   (`call`), the `inverse` attribute (`inverse`: class + fields of the object it returns; the paths on
   which building it raises ValueError must be exactly those the target's own validation rejects),
@@ -58,6 +60,8 @@ EXPECTED = {
 
 MAX_PATHS = 64
 MAX_DEPTH = 24
+MAX_STEPS = 5000        # traced operations + questions on one path (a loop on a traced condition never terminates otherwise)
+TIME_LIMIT_S = 30       # wall clock for the whole trace (a loop that involves no traced value)
 
 
 class TranslationError(Exception):
@@ -75,7 +79,7 @@ def source_path() -> str:
 
 # ---------------------------------------------------------------------------------------
 # expression trees (plain tuples)
-#   ("x",)  ("p", field)  ("c", Fraction)
+#   ("x",)  ("p", field)  ("v", name)  ("c", Fraction)            (`v`: a named scalar argument, e.g. an interval limit)
 #   ("add", a, b) ("mul", a, b) ("min", a, b) ("max", a, b)      operands sorted
 #   ("sub", a, b) ("div", a, b) ("pow", a, b) ("neg", a) ("fn", name, a) ("clip", a, lo, hi)
 # atoms of conditions: ("feq", a, b) sorted, ("le", a, b), ("lt", a, b)
@@ -108,7 +112,7 @@ def _depends_x(e) -> bool:
 
 
 def _has_param(e) -> bool:
-    return e[0] == "p" or any(isinstance(s, tuple) and _has_param(s) for s in e[1:])
+    return e[0] in ("p", "v") or any(isinstance(s, tuple) and _has_param(s) for s in e[1:])
 
 
 def _key(e):
@@ -123,6 +127,8 @@ def _show(e) -> str:
         return "values"
     if k == "p":
         return f"self.{e[1]}"
+    if k == "v":
+        return e[1]
     if k == "c":
         return _rat(e[1])
     if k in BIN_LEAN:
@@ -152,7 +158,12 @@ def _rat(q: Fraction) -> str:
     return f"(Num.ofRat ({q.numerator} / {q.denominator}))" if q >= 0 else f"(Num.ofRat (({q.numerator}) / {q.denominator}))"
 
 
+_CUR: list = []
+
+
 def _mk(op, *args):
+    if _CUR:
+        _CUR[-1].tick()
     if op in COMMUTATIVE:
         args = tuple(sorted(args, key=_key))
     return (op,) + tuple(args)
@@ -162,7 +173,7 @@ def _subst(e, env):
     """replace ("p", f) by env[f]"""
     if e[0] == "p":
         return env[e[1]]
-    if e[0] in ("x", "c"):
+    if e[0] in ("x", "c", "v"):
         return e
     parts = [(_subst(s, env) if isinstance(s, tuple) else s) for s in e[1:]]
     if e[0] in COMMUTATIVE or e[0] == "feq":
@@ -178,8 +189,15 @@ class _Ctx:
         self.prefix = prefix
         self.path = []
         self.known = {}
+        self.steps = 0
+
+    def tick(self):
+        self.steps += 1
+        if self.steps > MAX_STEPS:
+            raise TraceUnsupported(f"more than {MAX_STEPS} traced operations on one path (loop on a traced condition?)")
 
     def decide(self, atom) -> bool:
+        self.tick()
         if atom in self.known:
             return self.known[atom]
         i = len(self.path)
@@ -194,9 +212,6 @@ class _Ctx:
         self.path.append((atom, out))
         self.known[atom] = out
         return out
-
-
-_CUR: list = []
 
 
 def _decide(atom) -> bool:
@@ -831,6 +846,38 @@ def trace_inverse(cls, classes, valid_trees):
     return target, field_trees
 
 
+def trace_interval(mod):
+    """`BaseInterval.__call__` and `BaseInterval.inverse` on one element, for symbolic limits: a subclass whose
+    `get_limits` returns the symbols (vmin, vmax) is called on the traced array"""
+    base = getattr(mod, "BaseInterval", None)
+    if not isinstance(base, type):
+        raise TranslationError("BaseInterval not found")
+    lo, hi = TNum(("v", "vmin")), TNum(("v", "vmax"))
+
+    def make():
+        try:
+            return type("_TracedInterval", (base,), {"get_limits": lambda self, values: (lo, hi)})()
+        except Exception as e:  # noqa
+            raise TranslationError(f"cannot subclass BaseInterval with symbolic limits: {type(e).__name__}: {e}")
+
+    def run(method):
+        def go():
+            obj = make()
+            r = (obj if method == "__call__" else getattr(obj, method))(TArr(("x",)))
+            if not isinstance(r, TNum):
+                raise TranslationError(f"BaseInterval.{method} returned a {type(r).__name__}, not the traced array")
+            return r.e
+        return go
+
+    def leaf(method):
+        def f(v):
+            if v[0] != "value":
+                raise TranslationError(f"BaseInterval.{method} raises {v[1]} ({v[2]}) on some path — the model is a total function")
+            return v[1]
+        return f
+    return _map_leaves(explore(run("__call__")), leaf("__call__")), _map_leaves(explore(run("inverse")), leaf("inverse"))
+
+
 def trace_defaults(cls):
     try:
         inst = cls()
@@ -910,6 +957,7 @@ def translate_module(mod) -> str:
     call = {n: trace_call(classes[n]) for n in order}
     inverse = {n: trace_inverse(classes[n], classes, valid) for n in order}
     defaults = {n: trace_defaults(classes[n]) for n in order}
+    icall, iinv = trace_interval(mod)
 
     out = [PRELUDE]
     for n in order:
@@ -934,6 +982,17 @@ def translate_module(mod) -> str:
                    + ", ".join(f"{f} := {_expr_tree_inline(t)}" for f, t in zip(got[target], ftrees)) + " }")
         out.append(f"end {n}")
         out.append("")
+
+    out.append("section Interval")
+    out.append("variable {R : Type} [Num R]")
+    out.append("/-- `BaseInterval.__call__` on one element; `(vmin, vmax)` is what `get_limits(values)` returned -/")
+    out.append("def baseIntervalCall (vmin vmax values : R) : R :=")
+    out.extend(_expr_tree(icall))
+    out.append("/-- `BaseInterval.inverse` on one element -/")
+    out.append("def baseIntervalInverse (vmin vmax values : R) : R :=")
+    out.extend(_expr_tree(iinv))
+    out.append("end Interval")
+    out.append("")
 
     # name-indexed dispatch for the driver (parameters in field order)
     out.append("section Dispatch")
@@ -979,18 +1038,38 @@ def translate_module(mod) -> str:
 def translate_file(path: str) -> str:
     if not os.path.exists(path):
         raise TranslationError(f"cannot read {path}")
-    old_limit = sys.getrecursionlimit()
+    import signal
+    import threading
+
+    class _Timeout(BaseException):
+        pass
+
+    def on_alarm(signum, frame):
+        raise _Timeout()
+    use_alarm = threading.current_thread() is threading.main_thread() and hasattr(signal, "setitimer")
+    old_handler = None
+    if use_alarm:
+        try:
+            old_handler = signal.signal(signal.SIGALRM, on_alarm)
+            signal.setitimer(signal.ITIMER_REAL, TIME_LIMIT_S)
+        except (ValueError, OSError):
+            use_alarm = False
     try:
         mod = load_module(path)
         return translate_module(mod)
     except TranslationError:
         raise
+    except _Timeout:
+        raise TranslationError(f"tracing did not finish within {TIME_LIMIT_S} s (a loop the tracer cannot follow?)")
     except BaseException as e:  # the tracer itself must never crash the check
         if isinstance(e, (KeyboardInterrupt, SystemExit)):
             raise
         raise TranslationError(f"tracer failed: {type(e).__name__}: {e}")
     finally:
-        sys.setrecursionlimit(old_limit)
+        if use_alarm:
+            signal.setitimer(signal.ITIMER_REAL, 0)
+            signal.signal(signal.SIGALRM, old_handler)
+        del _CUR[:]
 
 
 def regenerate(out_path: str = OUT_PATH) -> bool:
